@@ -14,6 +14,11 @@ lf = os.environ["VERIF_SCRATCH"] + "/out/log-adhoc-0.txt"
 if os.path.exists(lf):
     t = open(lf, errors="replace").read()
     print(t[-int(os.environ.get("TAIL", "6000")):])
+import json
+ev = json.load(open(os.path.join(driver.VERIF, "evidence", "ADHOC.json")))
+if "counters" in sys.argv[3:]:
+    print(json.dumps(ev["coverage"].get("counters"), indent=0))
+    print(json.dumps(ev["coverage"].get("harness_notes"), indent=0)[:3000])
 import shutil
 shutil.rmtree(os.environ["VERIF_SCRATCH"], ignore_errors=True)
 os.remove(os.path.join(driver.VERIF, "evidence", "ADHOC.json"))
